@@ -96,6 +96,7 @@ Notify(n, al, sample) ==
             ELSE IF al /\ minPolicy /\ c1[1] = None THEN <<n, c1[2]>> ELSE c1
       cb2 == IF hasLat /\ c2[1] # bak[1]
              THEN (IF c2[1] # None THEN (IF bak[1] = None THEN <<TRUE>> ELSE <<>>) ELSE <<FALSE>>)
+             ELSE IF ~hasLat /\ al /\ minPolicy /\ c1[1] = None THEN <<TRUE>>   \* first selectable node without a measurement
              ELSE <<>>
   IN /\ alive' = [alive EXCEPT ![n] = al]
      /\ lat' = lat1
